@@ -84,9 +84,33 @@ def out_root():
     return os.environ.get("VERIF_OUT_DIR", VERIF)
 
 
+def pack_files(files):
+    """very large files (millions of filler lines) are stored run-length encoded by line"""
+    import itertools
+    out = {}
+    for k, v in files.items():
+        if isinstance(v, str) and len(v) > 200000:
+            out[k] = {"__rle_lines__": [[l, sum(1 for _ in g)] for l, g in itertools.groupby(v.split("\n"))]}
+        else:
+            out[k] = v
+    return out
+
+
+def unpack_files(files):
+    out = {}
+    for k, v in files.items():
+        if isinstance(v, dict) and "__rle_lines__" in v:
+            out[k] = "\n".join("\n".join([l] * n) for l, n in v["__rle_lines__"])
+        else:
+            out[k] = v
+    return out
+
+
 def write_replay(pid, v, seed):
     d = os.path.join(out_root(), "replays", pid)
     os.makedirs(d, exist_ok=True)
+    if isinstance(v.get("case"), dict) and isinstance(v["case"].get("files"), dict):
+        v = dict(v, case=dict(v["case"], files=pack_files(v["case"]["files"])))
     body = {"property": pid, "signature": v["signature"], "seed": seed, "message": v.get("message"),
             "case": v.get("case"), "expected": v.get("expected"), "observed": v.get("observed"),
             "sanitizer": v.get("sanitizer"), "tree_hash": build.tree_hash()}
@@ -148,6 +172,8 @@ def run_check(mod, tier, seed, replay=None):
     known = load_known()
     if replay:
         body = json.load(open(replay))
+        if isinstance(body.get("case"), dict) and isinstance(body["case"].get("files"), dict):
+            body["case"]["files"] = unpack_files(body["case"]["files"])
         vs = mod.replay(body["case"])
         for v in vs:
             print("VIOLATION property=%s replay=%s signature=%s" % (mod.ID, replay, v["signature"]))
